@@ -375,3 +375,42 @@ def rule_flatten_occurrence(db: ProgramDB) -> List[Instance]:
                     f"(items == [2, 2, 5]) are one key, so wherever rows are de-duplicated (the right side of or_) the second occurrence "
                     f"is dropped", line=y.lineno))
     return out
+
+
+# ---------------------------------------------------------------------------------- MAPPING-NOT-MEMOISED
+def rule_mapping_not_memoised(db: ProgramDB) -> List[Instance]:
+    """What a mapping reads from a user object - an attribute, an element, the elements of a collection, the result of a call - it reads
+    when it is evaluated, for the binding it is evaluated under.  `_apply_mapping_` and the methods of the node it calls carry no
+    memo decorator: a memo is keyed by the wrapped parent, whose equality is its identifier, and lives as long as the query object,
+    so 'one row for every element of e under every binding' would speak about the elements e had the first time."""
+    out = []
+    dm = db.cls("DomainMapping")
+    n = 0
+    for c in sorted(dm.all_subclasses(include_self=False), key=lambda k: k.qualname):
+        m = c.lookup("_apply_mapping_")
+        if m is None:
+            continue
+        seen, todo, memo = set(), [m], None
+        while todo:
+            f = todo.pop()
+            if f.qualname in seen:
+                continue
+            seen.add(f.qualname)
+            if any(("lru_cache" in d) or d.endswith("cache") or ("cached_property" in d) for d in f.decorators):
+                memo = f
+                break
+            for call in own_calls(f):
+                if isinstance(call.func, ast.Attribute) and isinstance(call.func.value, ast.Name) and call.func.value.id == "self":
+                    g = c.lookup(call.func.attr)
+                    if g is not None:
+                        todo.append(g)
+        n += 1
+        out.append(inst("MAPPING-NOT-MEMOISED", VIOLATION if memo else HOLDS, memo or m, f"{c.name}._apply_mapping_[reads the user object anew]",
+                        "no memoised method on the path" if memo is None else
+                        f"`{memo.short}` is memoised ({', '.join(memo.decorators)}) and is what {c.name}._apply_mapping_ answers from: the memo is keyed by the identity of "
+                        f"the parent object and never emptied, so a later evaluation of the same query reports what the object held the first time (elements "
+                        f"appended since are missing, removed ones still reported)", line=(memo or m).lineno))
+    if n < 4:
+        raise AnalysisError(f"only {n} mapping classes found")
+    return out
+
